@@ -363,3 +363,22 @@ func (c *PrunedCFG) Guards(b *ssa.BasicBlock) []Guard {
 	}
 	return out
 }
+
+// ReachableFrom returns the blocks reachable from b over kept edges.
+func (c *PrunedCFG) ReachableFrom(b *ssa.BasicBlock) map[*ssa.BasicBlock]bool {
+	seen := map[*ssa.BasicBlock]bool{}
+	var walk func(x *ssa.BasicBlock)
+	walk = func(x *ssa.BasicBlock) {
+		if seen[x] {
+			return
+		}
+		seen[x] = true
+		for i, s := range x.Succs {
+			if c.keep(x, i) {
+				walk(s)
+			}
+		}
+	}
+	walk(b)
+	return seen
+}
